@@ -74,16 +74,17 @@ var (
 type checker struct {
 	c *core.Ctx
 	// floor observations
-	okKeyKind   map[string]bool
-	okSpelling  map[string]bool
-	okRoot      map[string]bool
-	absentErr   int
-	mapThenF    int
-	soupParsed  int
-	soupReject  int
-	renderOK    map[string]bool
-	cliOK       int
-	neighbourEv int
+	okKeyKind    map[string]bool
+	okSpelling   map[string]bool
+	okRoot       map[string]bool
+	absentErr    int
+	mapThenF     int
+	soupParsed   int
+	soupReject   int
+	renderOK     map[string]bool
+	cliOK        int
+	neighbourEv  int
+	notedRejects int
 }
 
 func threadUserCPU() time.Duration {
@@ -198,7 +199,9 @@ func (k *checker) evalText(i int, family, gen, text string, rt rootType, msgs []
 		if st == "present" {
 			// never a verdict (a parse error is allowed) but worth a look: kept as samples
 			c.Count("parse-rejected-present-paths", 1)
-			c.Sample(map[string]any{"note": "parse error on a path whose element is present (allowed by C19, counted)", "path": text, "error": firstLine(perr.Error())})
+			if k.notedRejects++; k.notedRejects <= 3 {
+				c.Note("parse error on a path whose element is present (allowed by C19, counted): %q: %s", text, errTail(perr))
+			}
 		}
 		return false
 	}
@@ -304,9 +307,9 @@ func litIsKey(l pathref.Lit, k protoreflect.MapKey) bool {
 	case bool:
 		return l.Kind == pathref.LBool && l.B == v
 	case int32:
-		return l.Kind == pathref.LInt && pathref.IntLit(int64(v)) == l || (v == 0 && l.Mag == 0)
+		return l.Kind == pathref.LInt && (pathref.IntLit(int64(v)) == l || (v == 0 && l.Mag == 0))
 	case int64:
-		return l.Kind == pathref.LInt && pathref.IntLit(v) == l || (v == 0 && l.Mag == 0)
+		return l.Kind == pathref.LInt && (pathref.IntLit(v) == l || (v == 0 && l.Mag == 0))
 	case uint32:
 		return l.Kind == pathref.LInt && !l.Neg && l.Mag == uint64(v)
 	case uint64:
@@ -372,6 +375,9 @@ func (k *checker) grammar(i int, r *rand.Rand, rt rootType) {
 		}
 	}
 	feats := spellingFeatures(sp)
+	if len(steps) == 0 { // the empty text is not evidence that an implicit root followed by a field parses
+		feats = nil
+	}
 	parsed := k.evalText(i, "grammar", gen, text, rt, msgs,
 		func(m protoreflect.Message, _ protopath.Path) pathref.Walked { return pathref.Walk(m, steps) },
 		func(msgName string, exp pathref.Walked) {
